@@ -14,10 +14,14 @@ import (
 	"sync/atomic"
 	"time"
 
+	"gitlab.com/aquachain/aquachain/aquadb"
 	"gitlab.com/aquachain/aquachain/common"
+	"gitlab.com/aquachain/aquachain/common/log"
 	"gitlab.com/aquachain/aquachain/consensus"
 	"gitlab.com/aquachain/aquachain/consensus/aquahash"
+	"gitlab.com/aquachain/aquachain/core"
 	"gitlab.com/aquachain/aquachain/core/types"
+	"gitlab.com/aquachain/aquachain/core/vm"
 	"gitlab.com/aquachain/aquachain/params"
 	"verifharness/hx"
 )
@@ -326,6 +330,7 @@ func main() {
 	x.sectionEntry(rng.Fork(3), scale)
 	x.sectionBatch(rng.Fork(4), scale)
 	x.sectionUncles(rng.Fork(5), scale)
+	x.sectionImport(rng.Fork(7), scale)
 	x.sectionClockEdge(rng.Fork(6))
 	run.Notes["clock_reading"] = x.now
 	run.Finish()
@@ -457,6 +462,10 @@ func (x *H) sectionHeader(r *hx.Rng, scale int) {
 			times = append(times, big.NewInt(int64(pt)+d))
 		}
 		times = append(times, big.NewInt(now-1000), big.NewInt(now+15+1000), big.NewInt(now+1000000))
+		// timestamps of 2^64*k + t with a plausible t: the low 64 bits look valid (and the difficulty function only sees them)
+		for _, m := range []*big.Int{two64, new(big.Int).Mul(two64, big.NewInt(int64(2+r.Intn(5000)))), new(big.Int).Lsh(big.NewInt(1), 128), new(big.Int).Lsh(big.NewInt(1), 200)} {
+			times = append(times, new(big.Int).Add(m, u(pt+uint64(1+r.Intn(600)))))
+		}
 		if uncle {
 			times = append(times, new(big.Int).Sub(two64, big.NewInt(1)), new(big.Int).Set(two64), new(big.Int).Add(two64, u(pt+1)),
 				new(big.Int).Add(two64, u(pt+500)), new(big.Int).Add(two64, u(pt-5)), new(big.Int).Sub(two256, big.NewInt(1)), new(big.Int).Set(two256),
@@ -622,7 +631,9 @@ func (x *H) sectionEntry(r *hx.Rng, scale int) {
 		case 3: // wrong number: the (hash, number) lookup of the parent fails
 			cand.Number = new(big.Int).Add(cand.Number, big.NewInt(int64(r.Intn(3))-1))
 		case 4: // a rule violation
-			switch r.Intn(5) {
+			switch r.Intn(6) {
+			case 5: // timestamp 2^64*k + t: low 64 bits (and hence the difficulty) unchanged
+				cand.Time = new(big.Int).Add(cand.Time, new(big.Int).Mul(two64, big.NewInt(int64(1+r.Intn(3)*r.Intn(100000)))))
 			case 0:
 				cand.Difficulty = new(big.Int).Add(cand.Difficulty, big.NewInt(1))
 			case 1:
@@ -734,7 +745,9 @@ func (x *H) sectionBatch(r *hx.Rng, scale int) {
 		for f := 0; f < nf; f++ {
 			k := r.Intn(len(batch))
 			h := types.CopyHeader(batch[k])
-			switch r.Intn(8) {
+			switch r.Intn(9) {
+			case 8: // timestamp 2^64*k + t
+				h.Time = new(big.Int).Add(h.Time, new(big.Int).Lsh(big.NewInt(int64(1+r.Intn(7))), uint(64+64*r.Intn(3))))
 			case 0:
 				h.Difficulty = new(big.Int).Add(h.Difficulty, big.NewInt(1))
 			case 1:
@@ -1112,4 +1125,197 @@ func (x *H) sectionClockEdge(r *hx.Rng) {
 	}
 	x.run.Notes["clock_edge_cases"] = n
 	x.run.Notes["clock_edge_skipped"] = skipped
+}
+
+// ---------------------------------------------------------------------------------------------------------------------
+// 7. the import entry points that ESTABLISH the contiguity precondition of batch verification: the real
+//    HeaderChain.ValidateHeaderChain / BlockChain.InsertHeaderChain and BlockChain.InsertChain on a real chain (memory DB,
+//    fake seal), with linked batches (control), batches whose item i is re-pointed at a known sibling of item i-1 (i = 1 and
+//    i >= 2), number gaps, swapped order, an unknown parent hash, an invalid inner header, and a timestamp of 2^64*k + t.
+//    A refused batch must leave nothing behind: no header/block of it stored, head unchanged.
+
+func withVersion(c *params.ChainConfig, h *types.Header) *types.Header {
+	h = types.CopyHeader(h)
+	h.Version = c.GetBlockVersion(h.Number)
+	return h
+}
+
+func (x *H) sectionImport(r *hx.Rng, scale int) {
+	log.Root().SetHandler(log.DiscardHandler())
+	cfgs := []cfgT{builtin()[5], builtin()[2], builtin()[4], builtin()[1]}
+	ctx := context.Background()
+	n := 0
+	for i := 0; i < 24*scale; i++ {
+		c := cfgs[i%len(cfgs)]
+		cc := c.c
+		eng := aquahash.NewFaker()
+		gdb := aquadb.NewMemDatabase()
+		gspec := &core.Genesis{Config: cc}
+		genesis := gspec.MustCommit(gdb)
+		nMain := 2 + r.Intn(9)
+		if c.spec == "@testnet2" && r.Intn(2) == 0 {
+			nMain = 5 + r.Intn(16) // across HF8 = 8 and HF9 = 19
+		}
+		mainB, _ := core.GenerateChain(ctx, cc, genesis, eng, gdb, nMain, nil)
+		P := mainB[len(mainB)-1]
+		branchB, _ := core.GenerateChain(ctx, cc, P, eng, gdb, 2, nil)
+		off := int64(-1 - r.Intn(8))
+		branchA, _ := core.GenerateChain(ctx, cc, P, eng, gdb, 3, func(i int, gen *core.BlockGen) { gen.OffsetTime(off) })
+		for kind := 0; kind <= 8; kind++ {
+			for _, blockMode := range []bool{false, true} {
+				db := aquadb.NewMemDatabase()
+				gspec.MustCommit(db)
+				bc, err := core.NewBlockChain(ctx, db, nil, cc, eng, vm.Config{})
+				if err != nil {
+					x.run.Violate("setup", "setup", c.spec, err.Error())
+					continue
+				}
+				if _, err := bc.InsertChain(mainB); err != nil {
+					x.run.Violate("setup", "setup-main", c.spec, err.Error())
+					bc.Stop()
+					continue
+				}
+				if _, err := bc.InsertChain(branchB); err != nil {
+					x.run.Violate("setup", "setup-branch", c.spec, err.Error())
+					bc.Stop()
+					continue
+				}
+				A := []*types.Header{withVersion(cc, branchA[0].Header()), withVersion(cc, branchA[1].Header()), withVersion(cc, branchA[2].Header())}
+				B := []*types.Header{withVersion(cc, branchB[0].Header()), withVersion(cc, branchB[1].Header())}
+				var batch []*types.Header
+				mustReject := true
+				name := ""
+				switch kind {
+				case 0:
+					batch, mustReject, name = A[:1+r.Intn(3)], false, "linked"
+				case 1:
+					a1 := types.CopyHeader(A[1])
+					a1.ParentHash = B[0].Hash()
+					batch, name = []*types.Header{A[0], a1}, "repoint-1-at-known-sibling"
+				case 2:
+					a2 := types.CopyHeader(A[2])
+					a2.ParentHash = B[1].Hash()
+					batch, name = []*types.Header{A[0], A[1], a2}, "repoint-2-at-known-sibling"
+				case 3:
+					batch, name = []*types.Header{A[0], A[2]}, "number-gap"
+				case 4:
+					batch, name = []*types.Header{A[1], A[0]}, "swapped"
+				case 5:
+					k := 1 + r.Intn(3)
+					last := types.CopyHeader(A[k-1])
+					mult := []*big.Int{two64, new(big.Int).Mul(two64, big.NewInt(int64(2+r.Intn(1000)))), new(big.Int).Lsh(big.NewInt(1), 128), new(big.Int).Lsh(big.NewInt(1), 255)}[r.Intn(4)]
+					last.Time = new(big.Int).Add(last.Time, mult) // low 64 bits stay the plausible timestamp, the difficulty still matches them
+					batch = append(append([]*types.Header{}, A[:k-1]...), last)
+					name = "time-plus-2^64k"
+				case 6:
+					a1 := types.CopyHeader(A[1])
+					a1.ParentHash = common.BytesToHash(r.Bytes(32))
+					batch, name = []*types.Header{A[0], a1}, "repoint-1-at-unknown"
+				case 7:
+					a1 := types.CopyHeader(A[1])
+					a1.Difficulty = new(big.Int).Add(a1.Difficulty, big.NewInt(1))
+					a2 := types.CopyHeader(A[2])
+					a2.ParentHash = a1.Hash()
+					batch, name = []*types.Header{A[0], a1, a2}, "invalid-inner"
+				case 8:
+					a1 := types.CopyHeader(A[1])
+					a1.ParentHash = P.Hash() // an ancestor, not the predecessor
+					batch, name = []*types.Header{A[0], a1}, "repoint-1-at-grandparent"
+				}
+				headBefore := bc.CurrentHeader().Hash()
+				blockBefore := bc.CurrentBlock().Hash()
+				var stored []*types.Header
+				stored = append(stored, withVersion(cc, genesis.Header()))
+				for _, b := range mainB {
+					stored = append(stored, withVersion(cc, b.Header()))
+				}
+				stored = append(stored, B...)
+				now := time.Now().Unix()
+				tag := fmt.Sprintf("import %s kind=%s blocks=%v main=%d", c.spec, name, blockMode, nMain)
+				x.run.Current(tag)
+				var ierr error
+				var idx int
+				res := hx.Safe(func() string {
+					if blockMode {
+						var blocks types.Blocks
+						for k, h := range batch {
+							src := branchA[0]
+							for _, cand := range branchA {
+								if cand.NumberU64() == h.Number.Uint64() {
+									src = cand
+								}
+							}
+							_ = k
+							blocks = append(blocks, types.NewBlockWithHeader(h).WithBody(src.Transactions(), src.Uncles()))
+						}
+						idx, ierr = bc.InsertChain(blocks)
+					} else {
+						idx, ierr = bc.InsertHeaderChain(batch, 1)
+					}
+					return ""
+				})
+				newStored := 0
+				for _, h := range batch {
+					if blockMode {
+						if bc.GetBlock(h.Hash(), h.Number.Uint64()) != nil {
+							newStored++
+						}
+					} else if bc.GetHeader(h.Hash(), h.Number.Uint64()) != nil {
+						newStored++
+					}
+				}
+				headChanged := b2i(bc.CurrentHeader().Hash() != headBefore || bc.CurrentBlock().Hash() != blockBefore)
+				out := "ok"
+				switch {
+				case res != "":
+					out = "panic"
+				case ierr != nil && strings.Contains(ierr.Error(), "non contiguous"):
+					out = fmt.Sprintf("err noncontiguous %d %d", newStored, headChanged)
+				case ierr != nil:
+					out = fmt.Sprintf("err %d %s %d %d", idx, strings.TrimPrefix(class(ierr), "err "), newStored, headChanged)
+				}
+				mode := "headers"
+				if blockMode {
+					mode = "blocks"
+				}
+				x.run.Count("import[" + mode + "," + name + "]:" + strings.Join(strings.Fields(out)[:min(2, len(strings.Fields(out)))], "-"))
+				if mustReject {
+					// in block mode the valid prefix before a rule violation (kinds 5, 7) is legitimately imported: only the offending
+					// header and its successors must stay out; a non-contiguous batch is refused as a whole
+					// first item that must stay out: the re-pointed / gapped / swapped / invalid / time-wrapped one
+					brk := map[int]int{1: 1, 2: 2, 3: 1, 4: 1, 5: len(batch) - 1, 6: 1, 7: 1, 8: 1}[kind]
+					bad := out == "panic"
+					if blockMode {
+						// insertChain2 imports the linked prefix of a non-contiguous batch (returning nil) and the valid prefix before a
+						// rule violation: only the offending item and its successors must stay out
+						for _, h := range batch[brk:] {
+							if bc.GetBlock(h.Hash(), h.Number.Uint64()) != nil || bc.GetHeader(h.Hash(), h.Number.Uint64()) != nil ||
+								bc.CurrentHeader().Hash() == h.Hash() || bc.CurrentBlock().Hash() == h.Hash() {
+								bad = true
+							}
+						}
+					} else {
+						// ValidateHeaderChain runs before any write: a refused batch leaves nothing behind
+						bad = bad || out == "ok" || newStored != 0 || headChanged != 0
+					}
+					if bad {
+						x.run.Violate("invalid-batch-imported", "invalid-batch-imported "+mode+" "+name,
+							map[string]string{"config": c.spec, "mode": mode, "kind": name, "stored": renderList(stored), "batch": renderList(batch)},
+							fmt.Sprintf("%s import of a %s batch: result %q (batch items now stored: %d, head changed: %d); expected: refused, nothing of the invalid part stored, head unchanged", mode, name, out, newStored, headChanged))
+					}
+				} else if out != "ok" {
+					x.run.Violate("valid-batch-refused", "valid-batch-refused "+mode, map[string]string{"config": c.spec, "batch": renderList(batch)}, "a linked valid batch was refused: "+out)
+				}
+				if !blockMode {
+					line := fmt.Sprintf("ihc %s %d %s %s", c.spec, now, renderList(stored), renderList(batch))
+					x.run.Case(line, out)
+					n++
+				}
+				// Stop() commits recent states by canonical number; after a header-only import onto a full chain the canonical
+				// block body may be missing (outside C13) - recover
+				hx.Safe(func() string { bc.Stop(); return "" })
+			}
+		}
+	}
+	x.run.Notes["import_cases"] = n
 }
